@@ -45,6 +45,8 @@ func c11LongNames() []string {
 	for _, l := range []int{100, 126, 127, 128, 129, 200, 240} {
 		ns = append(ns, "n"+fmt.Sprint(l)+"-"+strings.Repeat("x", l-len(fmt.Sprint(l))-2))
 	}
+	// and names that are not valid UTF-8 (refused: a page token could not carry them)
+	ns = append(ns, "n1"+badByteMarker, "n100-"+badByteMarker+"x")
 	return append(ns, strings.Repeat("D", 130)+"/x", strings.Repeat("D", 130)+"/y", strings.Repeat("E", 127)+"/z", strings.Repeat("F", 200)+"/"+strings.Repeat("g", 200))
 }
 
